@@ -117,8 +117,40 @@ pub fn run_job(bytes: &[u8], job: &Job, reference: &[u64], dims: (u32, u32)) -> 
     JobResult { outcome: steps.iter().map(|s| s.split('(').next().unwrap().to_string()).collect::<Vec<_>>().join(">"), viol, any_error }
 }
 
+/// Feeds a prefix of a stream and renders the frame that is still loading; Ok(Some(hash)) for a successful
+/// loading render, Ok(None) when it reports an error, Err when the prefix does not even initialise.
+fn partial_loading(prefix: &[u8], tracker: &AllocTracker) -> Result<Option<u64>, String> {
+    use jxl_oxide::InitializeResult;
+    let mut u = JxlImage::builder().pool(JxlThreadPool::none()).alloc_tracker(tracker.clone()).build_uninit();
+    let n = u.feed_bytes(prefix).map_err(|e| format!("feed: {e}"))?;
+    let mut img = match u.try_init().map_err(|e| format!("init: {e}"))? {
+        InitializeResult::Initialized(i) => i,
+        InitializeResult::NeedMoreData(_) => return Err("need more data".into()),
+    };
+    img.feed_bytes(&prefix[n..]).map_err(|e| format!("feed: {e}"))?;
+    match img.render_loading_frame() {
+        Ok(r) => {
+            let fb = r.image_all_channels();
+            let b: Vec<u8> = fb.buf().iter().flat_map(|v| v.to_bits().to_le_bytes()).collect();
+            Ok(Some(fnv(&b)))
+        }
+        Err(_) => Ok(None),
+    }
+}
+
+/// Child-process probe (see `huge_request_probe`): one tracked grid request far beyond the limit.
+pub fn huge_request_child() -> ! {
+    let t = AllocTracker::with_limit(1 << 20);
+    let r = jxl_grid::AlignedGrid::<f32>::with_alloc_tracker(1 << 30, 1 << 12, Some(&t));
+    println!("{}", if r.is_err() { "refused" } else { "admitted" });
+    std::process::exit(0);
+}
+
 pub fn main(args: &crate::Args) {
     crate::util::install_panic_hook();
+    if args.rest.first().map(|s| s == "--huge-request-child").unwrap_or(false) {
+        huge_request_child();
+    }
     if let Some(p) = &args.replay {
         replay(p);
     }
@@ -207,6 +239,86 @@ pub fn main(args: &crate::Args) {
             rep.violation(&format!("{k}:{name}"), &format!("{w} [{name}, limit {}, history {} -> {}]", j.limit, j.history, r.outcome), &json!({"item": name, "stream_hex": hex(&streams[j.item].1[..streams[j.item].1.len().min(20000)]), "limit": j.limit, "history": j.history}));
         }
     }
+    // partially received streams: the frame that is still loading, rendered under every outcome-changing limit, must
+    // either report an error or give the picture an unlimited loading render gives at the same cut (a refusal must not
+    // be swallowed by a cheaper fallback), and the budget must come back
+    {
+        let wanted = ["vardct-lfframe-40x24", "vardct-lfframe-264x40-2groups-epf", "vardct-264x40-2groups-gab-epf", "rgb-130x130-groups-tocrev", "anim-12x10-3kf", "gray-70x40-squeeze-2pass", "vardct-40x24-alpha8"];
+        let mut pjobs: Vec<(usize, usize, usize, u64, usize)> = vec![];
+        let mut cuts_ok: std::collections::BTreeMap<String, usize> = Default::default();
+        for (si, (name, bytes)) in streams.iter().enumerate() {
+            if !wanted.contains(&name.as_str()) {
+                continue;
+            }
+            for num in 2usize..20 {
+                let cut = bytes.len() * num / 20;
+                let t = AllocTracker::with_limit(1 << 30);
+                t.verif_enable_log();
+                let Ok(Ok(Some(h))) = guard(|| partial_loading(&bytes[..cut], &t)) else { continue };
+                *cuts_ok.entry(name.clone()).or_insert(0usize) += 1;
+                // a transient refusal (budget of a shared tracker momentarily held elsewhere): the n-th attempt alone fails
+                for n in 0..t.verif_attempts() {
+                    pjobs.push((si, cut, 1 << 30, h, n));
+                }
+                let mut limits: Vec<usize> = vec![0, 1];
+                for (before, b) in t.verif_take_log() {
+                    let need = before + b;
+                    limits.extend([need.saturating_sub(1), need, need + 1]);
+                }
+                limits.sort();
+                limits.dedup();
+                let step = if quick && limits.len() > 400 { limits.len() / 400 + 1 } else { 1 };
+                for &l in limits.iter().step_by(step) {
+                    pjobs.push((si, cut, l, h, usize::MAX));
+                }
+            }
+        }
+        let pres = par_map(&pjobs, n_threads(), |_, &(si, cut, limit, want, fail_at)| -> Option<(String, String)> {
+            let t = AllocTracker::with_limit(limit);
+            if fail_at != usize::MAX {
+                t.verif_fail_at(Some(fail_at), false);
+            }
+            let r = guard(|| partial_loading(&streams[si].1[..cut], &t));
+            let refused = t.verif_refused() + t.verif_injected();
+            match r {
+                Err(p) => Some((format!("panic@{}", crate::util::panic_site(&p)), format!("panic with limit {limit}: {p}"))),
+                Ok(Ok(Some(h))) if h != want => Some((if refused > 0 { "oom-swallowed-loading".to_string() } else { "loading-differs".to_string() }, format!("render_loading_frame returned Ok with a picture that differs from the unlimited loading render at the same cut; {refused} allocation(s) were refused"))),
+                _ => {
+                    if t.verif_outstanding() != 0 {
+                        Some(("leak".into(), format!("{} tracked bytes outstanding after dropping a partially loaded image", t.verif_outstanding())))
+                    } else if t.verif_bytes_left() != limit {
+                        Some(("budget-not-restored".into(), format!("budget {} after dropping everything, expected {limit}", t.verif_bytes_left())))
+                    } else {
+                        None
+                    }
+                }
+            }
+        });
+        for (j, r) in pjobs.iter().zip(pres) {
+            rep.eval();
+            match r {
+                None => rep.outcome("partial-ok"),
+                Some((k, w)) => {
+                    rep.outcome("partial-bad");
+                    let name = &streams[j.0].0;
+                    rep.violation(&format!("{k}:{name}"), &format!("{w} [{name} cut at {} of {}, limit {}{}]", j.1, streams[j.0].1.len(), j.2, if j.4 == usize::MAX { String::new() } else { format!(", tracked attempt {} alone refused", j.4) }), &json!({"item": name, "stream_hex": hex(&streams[j.0].1), "cut": j.1, "limit": j.2, "fail_at": if j.4 == usize::MAX { -1i64 } else { j.4 as i64 }, "family": "partial"}));
+                }
+            }
+        }
+        rep.extra.insert("partial_stream_jobs".into(), json!(pjobs.len()));
+        rep.extra.insert("partial_stream_cuts_with_a_loading_render".into(), json!(cuts_ok));
+    }
+    // a single request far beyond the limit (4 TiB under a 1 MiB budget) must be refused by the tracker before any real
+    // allocation is attempted; run in a child process because the failure mode is an abort
+    {
+        rep.eval();
+        let exe = std::env::current_exe().unwrap();
+        match std::process::Command::new(exe).args(["C13", "--huge-request-child"]).output() {
+            Ok(o) if o.status.success() && String::from_utf8_lossy(&o.stdout).contains("refused") => rep.outcome("huge-request-refused"),
+            Ok(o) => rep.violation("huge-request", &format!("a 2^30 x 2^12 f32 grid under a 1 MiB limit: child ended with {:?}, stdout {:?}, stderr {:?}", o.status, String::from_utf8_lossy(&o.stdout).trim(), String::from_utf8_lossy(&o.stderr).lines().last().unwrap_or("")), &json!({"family": "huge-request"})),
+            Err(e) => crate::explore::machinery_failure(&format!("cannot start the probe child: {e}")),
+        }
+    }
     // accounting arithmetic of the tracker itself, against sizes computed here: for element types whose size, alignment
     // and padding differ, every count around a limit must be admitted / refused by exactly size_of::<T>() * count bytes
     {
@@ -244,7 +356,7 @@ pub fn main(args: &crate::Args) {
         probe::<(u32, u8)>("(u32,u8)", &mut rep);
         probe::<[u64; 3]>("[u64;3]", &mut rep);
     }
-    rep.rule = format!("{} streams (jxlw corpus incl. multi-group with local trees, animations, layers; {} hostile fuzz regressions): the allocation profile of an unlimited decode+render is recorded (cfg-gated log of every tracked attempt) and the limit L takes EVERY value at which an outcome can change (outstanding+request of every attempt, -1 and +1; 0; 1; ample){} x 5 call histories (render every keyframe; render each twice in reverse; small region then full; fail, expand the limit, re-request the region, render; loading frame then render), all ending with dropping every object; oracle: no panic, tracked high-water <= L, an Ok render equals the unlimited render (a refused allocation must not be swallowed), after dropping everything outstanding = 0 and the full budget can be shrunk away. Plus the tracker's own arithmetic: alloc::<T>(count) for 9 element types (size != alignment, padded tuples) x 8 counts x limits (exact, -1, +1, half) must be admitted / refused, charged and released by exactly size_of::<T>() * count bytes. Non-trivial = at least one call returned an error; distinct by (stream, limit, history).", streams.len(), streams.iter().filter(|s| s.0.starts_with("fuzz:")).count(), if quick { " (quick: at most ~120 limits per stream, evenly spaced over the sorted set)" } else { "" });
+    rep.rule = format!("{} streams (jxlw corpus incl. multi-group with local trees, animations, layers; {} hostile fuzz regressions): the allocation profile of an unlimited decode+render is recorded (cfg-gated log of every tracked attempt) and the limit L takes EVERY value at which an outcome can change (outstanding+request of every attempt, -1 and +1; 0; 1; ample){} x 5 call histories (render every keyframe; render each twice in reverse; small region then full; fail, expand the limit, re-request the region, render; loading frame then render), all ending with dropping every object; oracle: no panic, tracked high-water <= L, an Ok render equals the unlimited render (a refused allocation must not be swallowed), after dropping everything outstanding = 0 and the full budget can be shrunk away. Plus partially received streams (7 streams x 18 cut points (10 %..95 % of the bytes) x (every outcome-changing limit + every single tracked attempt refused alone, modelling budget of a shared tracker momentarily held elsewhere): the loading render errs or equals the unlimited loading render; budget restored), one 4 TiB request under a 1 MiB budget in a child process (must be refused, not attempted), and the tracker's own arithmetic: alloc::<T>(count) for 9 element types (size != alignment, padded tuples) x 8 counts x limits (exact, -1, +1, half) must be admitted / refused, charged and released by exactly size_of::<T>() * count bytes. Non-trivial = at least one call returned an error; distinct by (stream, limit, history).", streams.len(), streams.iter().filter(|s| s.0.starts_with("fuzz:")).count(), if quick { " (quick: at most ~120 limits per stream, evenly spaced over the sorted set)" } else { "" });
     rep.sample(json!({"item": streams[1].0, "limits": preps[1].limits.iter().take(12).collect::<Vec<_>>(), "histories": N_HIST}));
     rep.sample(json!({"item": streams.last().unwrap().0, "limits": preps.last().unwrap().limits.len()}));
     rep.extra.insert("limits_per_stream".into(), json!(streams.iter().zip(&preps).map(|(s, p)| (s.0.clone(), p.limits.len())).collect::<std::collections::BTreeMap<_, _>>()));
@@ -289,6 +401,39 @@ fn run_job_hostile(bytes: &[u8], job: &Job) -> JobResult {
 fn replay(path: &str) -> ! {
     let s = std::fs::read_to_string(path).unwrap_or_else(|e| crate::explore::machinery_failure(&format!("{path}: {e}")));
     let v: serde_json::Value = serde_json::from_str(&s).unwrap();
+    if v["family"] == "huge-request" {
+        let exe = std::env::current_exe().unwrap();
+        let o = std::process::Command::new(exe).args(["C13", "--huge-request-child"]).output().unwrap();
+        let ok = o.status.success() && String::from_utf8_lossy(&o.stdout).contains("refused");
+        println!("child: {:?} {}", o.status, String::from_utf8_lossy(&o.stdout).trim());
+        if ok {
+            println!("replay: property holds on this case");
+            std::process::exit(0)
+        }
+        println!("VIOLATION property=C13 replay={path}\n  key=huge-request");
+        std::process::exit(1)
+    }
+    if v["family"] == "partial" {
+        let bytes = crate::report::unhex(v["stream_hex"].as_str().unwrap());
+        let cut = v["cut"].as_u64().unwrap() as usize;
+        let limit = v["limit"].as_u64().unwrap() as usize;
+        let fail_at = v["fail_at"].as_i64().unwrap();
+        let t0 = AllocTracker::with_limit(1 << 30);
+        let want = partial_loading(&bytes[..cut], &t0);
+        let t = AllocTracker::with_limit(limit);
+        if fail_at >= 0 {
+            t.verif_fail_at(Some(fail_at as usize), false);
+        }
+        let got = partial_loading(&bytes[..cut], &t);
+        println!("unlimited: {want:?}\nwith the fault: {got:?} (refused {}, injected {}, outstanding after drop {}, budget {})", t.verif_refused(), t.verif_injected(), t.verif_outstanding(), t.verif_bytes_left());
+        let bad = matches!((&want, &got), (Ok(Some(a)), Ok(Some(b))) if a != b) || t.verif_outstanding() != 0 || t.verif_bytes_left() != limit;
+        if !bad {
+            println!("replay: property holds on this case");
+            std::process::exit(0)
+        }
+        println!("VIOLATION property=C13 replay={path}\n  key={}", v["key"].as_str().unwrap_or("partial"));
+        std::process::exit(1)
+    }
     let name = v["item"].as_str().unwrap();
     let job = Job { item: 0, limit: v["limit"].as_u64().unwrap() as usize, history: v["history"].as_u64().unwrap() as u32 };
     let bytes = if let Some(n) = name.strip_prefix("fuzz:") { std::fs::read(format!("/repo/crates/jxl-oxide-tests/tests/fuzz_findings/{n}.fuzz")).unwrap() } else { crate::report::unhex(v["stream_hex"].as_str().unwrap()) };
